@@ -214,12 +214,16 @@ def check(pid, tier, seed):
                                   show(e["b"]), show(e["o"]), showobs(x["spec"]), showobs(e["obs"])))
         acc = len(good) - len(mism)
         nn += sum(1 for b, o in rp if nontrivial(b, o))
+    from . import p_econf
+    nmix = 150 if tier == "quick" else 3000
+    accmix = p_econf.run_mixed(exe, random.Random(seed + 3), nmix, verdict, "C03")
+    acc += accmix
     rc = verdict.finish()
     samples = [{"base": show(b), "override": show(o), "expected": showobs(e)} for (b, o), e in list(zip(pairs, expect))[1000:1003]]
     cov = {"states": mc.distinct, "transitions": mc.generated, "traces_validated_against_impl": len(pairs) + acc,
            "evaluations": len(pairs) + len(rp), "distinct_nontrivial": nn,
-           "rule": "TLC: all pairs of duplicate-free entry lists of length <= %d over {group-less,A,B} x {x,y} (model-checked: %d pairs; exported and replayed through setters on newKeyFile/newIniFile/newKeyFile_with_options objects and parsed files: all %d pairs of length <= %d) + %d random pairs of 0..30 entries validated by Trace_Merge. non-trivial = shared key, an empty side, or a re-opened section." % (
-               maxlen + 1, mc.distinct, len(pairs), maxlen, len(rp)),
+           "rule": "TLC: all pairs of duplicate-free entry lists of length <= %d over {group-less,A,B} x {x,y} (model-checked: %d pairs; exported and replayed through setters on newKeyFile/newIniFile/newKeyFile_with_options objects and parsed files: all %d pairs of length <= %d) + %d random pairs of 0..30 entries validated by Trace_Merge + %d mixed histories with merges of parsed and built objects validated against the root specification (Trace_Econf). non-trivial = shared key, an empty side, or a re-opened section." % (
+               maxlen + 1, mc.distinct, len(pairs), maxlen, len(rp), nmix),
            "samples": samples, "exhaustive": True,
            "trusted_base": ["TLC 1.8.0", "gcc ASan/UBSan", "drv.c"]}
     core.write_evidence(pid, tier, seed, "model_checking", cov,
